@@ -1269,11 +1269,13 @@ static int state_sync_process(struct snapraid_state* state, struct snapraid_pari
 		io_write_next(&io, blockcur, !parity_going_to_be_updated, writer_error);
 
 		/* handle errors reported */
+		/* note that each entry counts the writes failed since the previous call, */
+		/* and with multiple threads they can be of different blocks */
 		for (j = 0; j < IO_WRITER_ERROR_MAX; ++j) {
 			if (writer_error[j]) {
 				switch (j + IO_WRITER_ERROR_BASE) {
 				case TASK_STATE_IOERROR_CONTINUE :
-					++io_error;
+					io_error += writer_error[j];
 					if (io_error >= state->opt.io_error_limit) {
 						/* LCOV_EXCL_START */
 						log_fatal("DANGER! Unexpected input/output write error in a parity disk, it isn't possible to sync.\n");
@@ -1283,16 +1285,16 @@ static int state_sync_process(struct snapraid_state* state, struct snapraid_pari
 					}
 					break;
 				case TASK_STATE_ERROR_CONTINUE :
-					++error;
+					error += writer_error[j];
 					break;
 				case TASK_STATE_IOERROR :
 					/* LCOV_EXCL_START */
-					++io_error;
+					io_error += writer_error[j];
 					goto bail;
 					/* LCOV_EXCL_STOP */
 				case TASK_STATE_ERROR :
 					/* LCOV_EXCL_START */
-					++error;
+					error += writer_error[j];
 					goto bail;
 					/* LCOV_EXCL_STOP */
 				}
